@@ -124,7 +124,8 @@ func c13Addr(w *W) {
 		laddr = strings.Replace(laddr, "127.0.0.1", []string{"0.0.0.0", "[::]"}[w.Choose(simrt.SShape, 2)], 1)
 		w.SetShape("wildcard", true)
 	}
-	lp, dp, l, d, ok := c13Collect(w, a, b, laddr, w.EpOpts(laddr, true, nil), w.EpOpts(laddr, false, nil))
+	lp, dp, l, d, ok := c13Collect(w, a, b, laddr, w.EpOpts(laddr, true, nil), w.EpOpts(laddr, false, map[string]interface{}{
+		mangos.OptionReconnectTime: 37 * time.Millisecond, mangos.OptionMaxReconnectTime: 91 * time.Millisecond}))
 	if !ok || !c13CheckEndpoints(w, tran, lp, dp, l, d) {
 		return
 	}
@@ -170,6 +171,46 @@ func c13Addr(w *W) {
 	} else if v, err := lp.GetOption(mangos.OptionTLSConnState); err == nil {
 		w.Failf("C13/wrong-tls-state:"+tran+":plain", "%s: a non-TLS pipe reports TLS state %v", tran, v)
 		return
+	}
+	if tran == "inproc" {
+		// inproc has no network address; what the pipe reports as its local
+		// and remote address names the inproc endpoint it belongs to
+		for _, x := range []struct {
+			side string
+			p    mangos.Pipe
+		}{{"dialer", dp}, {"listener", lp}} {
+			for _, opt := range []string{mangos.OptionLocalAddr, mangos.OptionRemoteAddr} {
+				na, err := addrOf(x.p, opt)
+				if err != nil {
+					w.Failf("C13/address-options-missing", "inproc %s side: %s: %v", x.side, opt, err)
+					return
+				}
+				if na.Network() != "inproc" || !strings.HasSuffix(l.Address(), "://"+na.String()) {
+					w.Failf("C13/wrong-connection-addresses", "inproc %s side: %s is %s %q; the endpoint is %s", x.side, opt, na.Network(), na.String(), l.Address())
+					return
+				}
+			}
+		}
+		w.Probe("inproc-pipe-addresses")
+	}
+	// an option the connection does not have is answered by the endpoint that
+	// created the pipe, with that endpoint's value
+	for _, x := range []struct {
+		side string
+		p    mangos.Pipe
+		get  func(string) (interface{}, error)
+	}{{"dialer", dp, d.GetOption}, {"listener", lp, l.GetOption}} {
+		for _, opt := range []string{mangos.OptionReconnectTime, mangos.OptionMaxReconnectTime, mangos.OptionDialAsynch, mangos.OptionMaxRecvSize, mangos.OptionNoDelay, mangos.OptionKeepAlive} {
+			pv, perr := x.p.GetOption(opt)
+			ev, eerr := x.get(opt)
+			if perr == nil && (eerr != nil || pv != ev) {
+				w.Failf("C13/pipe-option-not-the-endpoints", "%s: GetOption(%s) on the %s-side pipe returns %v; its %s returns (%v, %v)", tran, opt, x.side, pv, x.side, ev, eerr)
+				return
+			}
+			if perr == nil {
+				w.Probe("pipe-option-answered-by-endpoint")
+			}
+		}
 	}
 	// an unknown read-only option is refused, not invented
 	if v, err := lp.GetOption("NO-SUCH-PROPERTY"); err == nil {
